@@ -201,6 +201,14 @@ def run_c20(case, fail):
         return
     q = np.asarray(q).ravel()
     U = np.asarray(U, dtype=float)
+    # the selection must not depend on whether the utilities are requested
+    try:
+        ss2 = SubSamplingWrapper(make_strategy(name, case["sseed"]), max_candidates=mc, exclude_non_subsample=case["excl"], random_state=case["sseed"])
+        q2 = np.asarray(ss2.query(X, y, candidates=cand, batch_size=case["b"], return_utilities=False, **kw())).ravel()
+        if q2.tolist() != q.tolist():
+            fail("C20.subsampling_selection_depends_on_return_utilities", f"{q2.tolist()} without utilities vs {q.tolist()} with utilities (equal seeds)")
+    except Exception as e:
+        fail("C20.subsampling_raised_without_utilities", f"{type(e).__name__}: {str(e)[:100]}")
     k = min(case["b"], sub_n)
     if len(q) != k or len(set(q.tolist())) != len(q) or not set(q.tolist()) <= set(cset):
         fail("C20.subsampling_selection", f"selected {q.tolist()}, expected {k} distinct candidates out of {cset}")
